@@ -47,8 +47,8 @@ type World struct {
 	constLenNames map[string]int64
 	globals       map[*ssa.Global]*globalBytes // see constfold.go
 	tWriters      map[*ssa.Global]string
-	gWriters      map[*ssa.Global][]string     // see stateless.go
-	clobber       *clobberSummary              // see noclobber.go
+	gWriters      map[*ssa.Global][]string // see stateless.go
+	clobber       *clobberSummary          // see noclobber.go
 	allSet        map[*ssa.Function]bool
 }
 
